@@ -9,7 +9,7 @@
    nones_are_zeros.  [outcome_equiv] compares emitted rationals with Qeq. *)
 From Coq Require Import NArith QArith List.
 From Verif Require Import model.Common gen.Formula model.Formula proofs.FormulaFacts proofs.FormulaHO
-  proofs.FormulaSY proofs.FormulaTok proofs.FormulaSum proofs.FormulaSteps.
+  proofs.FormulaSY proofs.FormulaTok proofs.FormulaSum proofs.FormulaSteps proofs.FormulaPool.
 Import ListNotations.
 Local Open Scope Q_scope.
 
@@ -118,6 +118,17 @@ Theorem C05_signed_missing_none : forall rnd n0 z0 rest env n,
   run_round rnd (compile_signed n0 z0 rest) env = Emit None.
 Proof. exact signed_missing_none. Qed.
 
+(* FormulaEnginePool.from_string (LogicalMeter.start_formula): the pool's key is the concatenation
+   formula ++ metric name.  For every sequence of requests whose formulas are over the tokenizer's
+   alphabet (no letters) and whose metric names start with a letter, the engine handed out for a
+   request reads the request's metric and runs the request's formula: requests for the same string
+   and different metrics never alias. *)
+Theorem C05_pool_no_alias : forall reqs p, pool_inv p ->
+  Forall (fun r => letter_free (fst (fst r)) /\ name_ok (snd (fst r))) reqs ->
+  Forall2 (fun r e => pe_metric e = snd (fst r) /\ exists nz0, pe_prog e = compile_string nz0 (fst (fst r)))
+          reqs (pool_run p reqs).
+Proof. exact pool_no_alias. Qed.
+
 (* non-vacuity: "#1 - #2 * ( ( #3 + #1 ) ) / #2 - #3" with 7, 2, 5: 7 - 2*12/2 - 5 = -10
    (evaluating left to right without precedence would give 25); the string tokenizes to pp e *)
 Example C05_nonvacuous :
@@ -145,3 +156,4 @@ Print Assumptions C05_signed_sum.
 Print Assumptions C05_signed_sum_none.
 Print Assumptions C05_signed_always_emits.
 Print Assumptions C05_signed_missing_none.
+Print Assumptions C05_pool_no_alias.
